@@ -10,16 +10,15 @@ Require Import V.Lib V.C08_Model V.C08_Proofs.
 Open Scope N_scope.
 
 (* ---- 1. a failed attempt never takes anything away (full, every mode, every well-formed state) ----
-   The instance list and the mutex are exactly as before; every registered hook is still registered
-   (the registry only gained hooks born in this attempt); every cached htpasswd file and every
-   roller is as before; the table of listening sockets with their descriptor counts is EXACTLY as
+   The instance list, the mutex and the event-hook registry are exactly as before; every cached
+   htpasswd file and every roller is as before; the table of listening sockets with their descriptor counts is EXACTLY as
    before: what a failing start opened (new listeners, duplicated descriptors of inherited ones) it
    closed again (fix of F-C08-2/2b/2c).  [wf] holds in every reachable state, see 8. *)
 Theorem C08_failed_attempt_loses_nothing :
   forall m step e c g r g',
   wf g -> attempt m step e c g = (r, g') -> r <> ROk ->
   g_insts g' = g_insts g /\ g_htlock g' = g_htlock g /\
-  (exists k, g_hooks g' = g_hooks g ++ repeat step k) /\
+  g_hooks g' = g_hooks g /\
   (forall f x, assoc f (g_htcache g) = Some x -> assoc f (g_htcache g') = Some x) /\
   (forall f x, assoc f (g_rollers g) = Some x -> assoc f (g_rollers g') = Some x) /\
   g_socks g' = g_socks g.
@@ -45,18 +44,26 @@ Theorem C08_failed_attempt_sites_untouched :
 Proof. exact failed_attempt_sites_untouched. Qed.
 Print Assumptions C08_failed_attempt_sites_untouched.
 
-(* ---- 3. the SIGUSR1 path restores the hook registry exactly (full for that path) ---- *)
-Theorem C08_failed_sigusr1_restores_hooks :
-  forall step e c g r g',
-  attempt Sigusr1 step e c g = (r, g') -> r <> ROk -> g_hooks g' = g_hooks g.
-Proof. exact failed_sigusr1_hooks. Qed.
-Print Assumptions C08_failed_sigusr1_restores_hooks.
+(* ---- 3. EVERY failed attempt leaves the event-hook registry exactly as it was (full: every mode, every
+        state, every configuration; fix of F-C08-1/1b/1c/1d — formerly true of the SIGUSR1 path only) ---- *)
+Theorem C08_failed_attempt_restores_hooks :
+  forall m step e c g r g',
+  attempt m step e c g = (r, g') -> r <> ROk -> g_hooks g' = g_hooks g.
+Proof. exact failed_attempt_hooks. Qed.
+Print Assumptions C08_failed_attempt_restores_hooks.
 
-Example C08_failed_sigusr1_restores_hooks_nonvacuous :
-  exists g1 g2, attempt Load 1 [] (mkcfg 1 [EOn 1] [AEph 1]) g0 = (ROk, g1) /\
-                attempt Sigusr1 2 [] (mkcfg 2 [EOn 2; EBad] [AEph 1]) g1 = (RErr, g2) /\
-                g_hooks g2 = [1] /\ g_hooks g1 = [1].
-Proof. eexists. eexists. vm_compute. repeat split; reflexivity. Qed.
+Example C08_failed_attempt_restores_hooks_nonvacuous :
+  (exists g', attempt Load 1 [] (mkcfg 1 [EOn 1; EBad] [AEph 1]) g0 = (RErr, g') /\ g_hooks g' = []) /\
+  (exists g', attempt Validate 1 [] (mkcfg 1 [EOn 1; EAuth 2 1] [AEph 1]) g0 = (RErr, g') /\ g_hooks g' = []) /\
+  (exists g', attempt Execute 1 [] (mkcfg 1 [EOn 2; EBad] [AEph 1]) g0 = (RErr, g') /\ g_hooks g' = []) /\
+  (exists g', attempt Load 1 [] (mkcfg 1 [EOn 1] [AEph 1; ABusy]) g0 = (RErr, g') /\ g_hooks g' = []) /\
+  (exists g1 g2, attempt Load 1 [] (mkcfg 1 [EOn 1] [AEph 1]) g0 = (ROk, g1) /\
+                 attempt Reload 2 [] (mkcfg 2 [EOn 2; EBad] [AEph 1]) g1 = (RErr, g2) /\
+                 g_hooks g2 = [1] /\ g_hooks g1 = [1]) /\
+  (exists g1 g2, attempt Load 1 [] (mkcfg 1 [EOn 1] [AEph 1]) g0 = (ROk, g1) /\
+                 attempt Sigusr1 2 [] (mkcfg 2 [EOn 2; EBad] [AEph 1]) g1 = (RErr, g2) /\
+                 g_hooks g2 = [1] /\ g_hooks g1 = [1]).
+Proof. exact hooks_restored_witness. Qed.
 
 (* ---- 4. bounded time: over ALL histories no attempt ever blocks, and the htpasswd mutex is free
         after every history (full; this is the clause the fix ee9fbaa made true) ---- *)
@@ -81,24 +88,20 @@ Print Assumptions C08_htpasswd_lock_before_fix_refuted.
 
 (* ---- 5. the frame theorem ----
    Full statement "after a failed attempt the state equals the state before" is FALSE of the code as it
-   is: witnesses for the hook registry (load, validate, API-driven reload), the roller map and the
-   htpasswd cache.  (The listening sockets and their descriptors are no longer among them: see 1.) *)
+   is: witnesses for the roller map and the htpasswd cache.  (The listening sockets with their descriptors
+   and the event-hook registry are no longer among them: see 1 and 3.) *)
 Theorem C08_failed_attempt_frame_refuted :
-  (exists c g', attempt Load 1 [] c g0 = (RErr, g') /\ g_hooks g' <> g_hooks g0) /\
-  (exists c g', attempt Validate 1 [] c g0 = (RErr, g') /\ g_hooks g' <> g_hooks g0) /\
-  (exists c0 c g1 g', attempt Load 1 [] c0 g0 = (ROk, g1) /\ attempt Reload 2 [] c g1 = (RErr, g') /\
-                      g_hooks g' <> g_hooks g1) /\
   (exists c g', attempt Load 1 [] c g0 = (RErr, g') /\ g_rollers g' <> g_rollers g0) /\
   (exists e c g', attempt Load 1 e c g0 = (RErr, g') /\ g_htcache g' <> g_htcache g0).
 Proof. exact frame_refuted. Qed.
 Print Assumptions C08_failed_attempt_frame_refuted.
 
 (* Strongest true statement: the ENTIRE state is unchanged by a failed attempt that does not REACH one of
-   the three remaining leaks.  [reached c] is the part of the configuration an attempt can execute (nothing of a
+   the two remaining leaks.  [reached c] is the part of the configuration an attempt can execute (nothing of a
    configuration that does not parse; of one with a bad directive only the directives before it, minus
-   the startup callbacks they merely schedule); in it: no `on` hooks (unless the attempt comes through
-   SIGUSR1), no htpasswd line, and — unless the attempt ends after the directives (validate, execute) —
-   no log roller.  Listeners are no side condition: whatever the failing start opened it closed again.
+   the startup callbacks they merely schedule); in it: no htpasswd line, and — unless the attempt ends after the directives (validate, execute) —
+   no log roller.  Listeners and `on` hooks are no side condition: whatever the failing attempt opened it
+   closed again, whatever it registered it took out again.
    [wf] (nobody serves the foreign address, every socket of the table has a descriptor) holds in every
    reachable state, see 8. *)
 Theorem C08_attempt_depends_only_on_what_it_reaches :
@@ -116,7 +119,8 @@ Example C08_failed_attempt_frame_partial_nonvacuous :
   harmless Load (mkcfg 1 [EBad] [AEph 1]) = true /\
   harmless Load {| c_id := 1; c_parse := PSyntax; c_effs := [EOn 2; ELog 1 1 true; EAuth 1 1]; c_addrs := [AEph 1; ABusy] |} = true /\
   harmless Reload (mkcfg 1 [ELog 1 1 true; EBad; EOn 2; EAuth 1 1] [AEph 1; ABusy]) = true /\
-  harmless Load (mkcfg 1 [EOn 1; EBad] [AEph 1]) = false /\
+  harmless Load (mkcfg 1 [EOn 1; EBad] [AEph 1]) = true /\
+  harmless Load (mkcfg 1 [EAuth 1 1; EBad] [AEph 1]) = false /\
   harmless Load (mkcfg 1 [] [AEph 1; AEph 2; ABusy]) = true /\
   harmless Reload (mkcfg 1 [] [AEph 1; ABusy]) = true /\
   harmless Sigusr1 (mkcfg 1 [EOn 2; EBad] [ABusy; AEph 1]) = true /\
